@@ -133,14 +133,17 @@ type srcMessage struct {
 }
 
 func (c *multiConsumer) Consume() error {
+	// done releases the readEdge goroutines when Consume returns early with an error.
+	done := make(chan struct{})
+	defer close(done)
 	errC := make(chan error, len(c.ins))
 	for i, in := range c.ins {
 		go func(src int, in Edge) {
-			errC <- c.readEdge(src, in)
+			errC <- c.readEdge(src, in, done)
 		}(i, in)
 	}
 
-	firstErr := make(chan error, 1)
+	firstErr := make(chan error, len(c.ins))
 	go func() {
 		for range c.ins {
 			err := <-errC
@@ -186,7 +189,7 @@ LOOP:
 	return c.r.Finish()
 }
 
-func (c *multiConsumer) readEdge(src int, in Edge) error {
+func (c *multiConsumer) readEdge(src int, in Edge, done <-chan struct{}) error {
 	batchBuffer := new(BatchBuffer)
 	for m, ok := in.Emit(); ok; m, ok = in.Emit() {
 		switch msg := m.(type) {
@@ -200,14 +203,16 @@ func (c *multiConsumer) readEdge(src int, in Edge) error {
 			}
 		case EndBatchMessage:
 			batch := batchBuffer.BufferedBatchMessage(msg)
-			c.messages <- srcMessage{
-				Src: src,
-				Msg: batch,
+			select {
+			case c.messages <- srcMessage{Src: src, Msg: batch}:
+			case <-done:
+				return nil
 			}
 		default:
-			c.messages <- srcMessage{
-				Src: src,
-				Msg: msg,
+			select {
+			case c.messages <- srcMessage{Src: src, Msg: msg}:
+			case <-done:
+				return nil
 			}
 		}
 	}
